@@ -167,7 +167,12 @@ class TypeFlow:
                 elif v[0] == "C":
                     c = P.classes[v[1]]
                     m = P.method(c, e.attr)
-                    if m is not None:
+                    if m is not None and getattr(m, "is_property", False):
+                        # reading a property runs its getter on the receiver: the value read is what the getter returns
+                        if m.params:
+                            self._add(("v", m.qual, m.params[0]), {v})
+                        out |= self._get(("ret", m.qual))
+                    elif m is not None:
                         # a staticmethod reached through an instance is a plain function (no receiver is bound)
                         out.add(("F", m.qual) if m.is_staticmethod else ("BM", m.qual, v))
                     typed = True
